@@ -174,3 +174,22 @@ Definition so_scale (sk : sckind) (ys : list Q) : list Q := map (scale_col sk ys
 
 (* exploitation step on a fully observed candidate set with an interpolating surrogate: index of the next proposal *)
 Definition next_idx (kappa : Q) (mus sigmas : list Q) : nat := argmin_idx (map2 (acq_lcb kappa) mus sigmas).
+
+(* ---------- one-shot batch: Optimizer.ask(n, "topk") = the n candidates with the smallest acquisition values ---------- *)
+(* np.argsort(values)[:n]; modelled as n successive first-minimum selections (= the first n of a stable argsort; numpy's
+   sort is not stable, the theorems and the oracle only speak about the selected SET and its values) *)
+Fixpoint remove_nth {A} (i : nat) (l : list A) : list A :=
+  match l with
+  | [] => []
+  | x :: t => match i with O => t | S i' => x :: remove_nth i' t end
+  end.
+Fixpoint topk_pairs (n : nat) (l : list (nat * Q)) : list (nat * Q) :=
+  match n with
+  | O => []
+  | S n' => match l with
+            | [] => []
+            | p0 :: _ => let i := argmin_idx (map snd l) in nth i l p0 :: topk_pairs n' (remove_nth i l)
+            end
+  end.
+Definition indexed (vals : list Q) : list (nat * Q) := combine (seq 0 (length vals)) vals.
+Definition topk (n : nat) (vals : list Q) : list nat := map fst (topk_pairs n (indexed vals)).
